@@ -321,7 +321,27 @@ impl<E: Elem> Cont for FastVecAd<E> {
                 Ret::Done
             }
             COp::Shrink => r(v.shrink_to_fit()),
-            COp::Reserve(k) => r(v.reserve(k)),
+            // both spellings: reserve(additional) / ensure_capacity(minimum), chosen by the (deterministic) length
+            COp::Reserve(k) => {
+                if len % 2 == 0 {
+                    r(v.reserve(k))
+                } else {
+                    r(v.ensure_capacity(len + k))
+                }
+            }
+            // write through the mutable views: get_mut(i) for even ids, as_mut_slice() for odd ones
+            COp::Set(p) => {
+                let i = idx_rm(p, len);
+                let e = E::mk(cx.reg, cx.ids[0]);
+                let slot = if cx.ids[0] % 2 == 0 { v.get_mut(i) } else { v.as_mut_slice().get_mut(i) };
+                match slot {
+                    Some(s) => {
+                        *s = e;
+                        Ret::Ok
+                    }
+                    None => Ret::Err,
+                }
+            }
             COp::ExtendSlice(_) | COp::Assign(_) | COp::FillAll | COp::FillMid | COp::FillPast => self.copy_ops(op, cx),
             _ => Ret::NotOffered,
         }
@@ -461,6 +481,19 @@ impl<E: Elem> Cont for CacheVecAd<E> {
                 Ret::Done
             }
             COp::Reserve(k) => r(v.reserve(k)),
+            // write through the mutable views: get_mut(i) for even ids, as_mut_slice() for odd ones
+            COp::Set(p) => {
+                let i = idx_rm(p, len);
+                let e = E::mk(cx.reg, cx.ids[0]);
+                let slot = if cx.ids[0] % 2 == 0 { v.get_mut(i) } else { v.as_mut_slice().get_mut(i) };
+                match slot {
+                    Some(s) => {
+                        *s = e;
+                        Ret::Ok
+                    }
+                    None => Ret::Err,
+                }
+            }
             _ => Ret::NotOffered,
         }
     }
@@ -1278,6 +1311,19 @@ fn main() {
             4,
             "",
         ));
+        // (coverage audit) writes through get_mut / as_mut_slice, ensure_capacity next to reserve
+        reg.add(cont(
+            "FastVec<Tracked>[cap=2]/set-ensure",
+            |_| Ok(Box::new(FastVecAd::<Tracked>(FastVec::with_capacity(2).map_err(es)?)) as Box<dyn Cont>),
+            &[Push, Pop, Set(Pos::Front), Set(Pos::End), Set(Pos::Past), Reserve(3), Shrink, CloneSwap],
+            &[],
+            false,
+            true,
+            None,
+            4,
+            5,
+            "",
+        ));
         // the T: Copy bulk API; 9 x u64 = 72 bytes crosses the 64-byte SIMD threshold
         reg.add(cont(
             "FastVec<u64>/bulk",
@@ -1346,7 +1392,7 @@ fn main() {
         ));
 
         // ---- CacheAlignedVec<Tracked>
-        let cv = [Push, Pop, Truncate(Len::Zero), Truncate(Len::Minus1), Truncate(Len::Plus2), Clear, Reserve(1), Reserve(5)];
+        let cv = [Push, Pop, Truncate(Len::Zero), Truncate(Len::Minus1), Truncate(Len::Plus2), Clear, Reserve(1), Reserve(5), Set(Pos::Mid), Set(Pos::Past)];
         reg.add(cont("CacheAlignedVec<Tracked>[new]", |_| Ok(Box::new(CacheVecAd::<Tracked>(CacheAlignedVec::new())) as Box<dyn Cont>), &cv, &[], false, true, None, 5, 6, ""));
         reg.add(cont(
             "CacheAlignedVec<Tracked>[cap=2]/prefill3",
